@@ -164,8 +164,14 @@ ApplyOp(s, maxrem) ==
   LET n == Len(s.val)
       args == s.val[n]
       operator == s.val[n - 1]
-      s1 == [s EXCEPT !.val = SubSeq(@, 1, n - 2), !.env = Front(@)]
       sm == SmallNumber(operator)
+      \* history flag for C30: an operator outside RuntimeDialect's standard table (or a guard) was applied
+      beyond == \/ sm = 36
+                \/ (IsAtom(operator) /\ operator.a \in {<< 48 >>, Secp256k1Op, Secp256r1Op})
+                \/ (sm = 62 /\ "ENABLE_KECCAK_OPS_OUTSIDE_GUARD" \in ExtFlags(s.flags, TopGuardSet(s)))
+                \/ (sm = 63 /\ "ENABLE_SHA256_TREE" \in s.flags)
+                \/ (sm \in {64, 65} /\ "ENABLE_SECP_OPS" \in s.flags)
+      s1 == [s EXCEPT !.val = SubSeq(@, 1, n - 2), !.env = Front(@), !.beyond = @ \/ beyond]
   IN  IF sm = 2
       THEN LET it == Items(args)
            IN  IF Len(it) # 2 THEN Fail(s1, "InvalidOpArg")
@@ -220,7 +226,7 @@ Start(prog, envv, budget, flags, dialect, al0, wit) ==
       s0 == [val |-> << >>, env |-> << >>, ops |-> << >>, sf |-> << >>,
              cost |-> << >>, maxc |-> IF budget = << >> THEN U64Max ELSE budget,
              flags |-> fl, dialect |-> dialect, al |-> al0, status |-> "run", kind |-> "",
-             exempt |-> FALSE, guards |-> 0, steps |-> 0, wit |-> wit]
+             exempt |-> FALSE, beyond |-> FALSE, guards |-> 0, steps |-> 0, wit |-> wit]
   IN  IF al0.atoms >= MaxAtoms THEN Fail(s0, "TooManyAtoms")
       ELSE EvalPair([s0 EXCEPT !.al.atoms = @ + 1], prog, envv)
 
